@@ -59,6 +59,11 @@ def _hex_encode(eng, m, args, fr, dty):
     inp = items_of(eng, args[0], fr)
     out = []
     for b in inp:
+        if hasattr(b, 'pre'):
+            from .models_sha import HashByte
+            out.append(HashByte(b.pre, 1000 + 2 * b.i))          # hex digits of a digest byte: compared structurally
+            out.append(HashByte(b.pre, 1001 + 2 * b.i))
+            continue
         out.append(Int(hexdigit(z3.LShR(b.e, 4)), 8, False))
         out.append(Int(hexdigit(b.e & 0x0f), 8, False))
     return Vec(out)
